@@ -1772,3 +1772,14 @@ Proof.
     forged_blob, forged_resp.
   vm_compute. auto.
 Qed.
+
+(** what is in the cache is served for its name; what is not in the cache is not served *)
+Lemma cached_is_served l en : In en l -> served (c_name (en_cert en)) l <> None.
+Proof.
+  intros I H. unfold served in H. apply (find_none _ _ H) in I. rewrite Z.eqb_refl in I. discriminate.
+Qed.
+
+Lemma served_is_cached name l en : served name l = Some en -> In en l /\ c_name (en_cert en) = name.
+Proof.
+  unfold served. intros H. apply find_some in H. destruct H as [I E]. apply Z.eqb_eq in E. auto.
+Qed.
